@@ -8,7 +8,7 @@ PROP = dict(
     level="exploration",
     level_text="Conditions: every random condition is evaluated by the real Action::ActionX::eval (deck route through "
                "Parser/parseActionX and token route through the ActionX constructor) and by an interpreter written from the "
-               "property statement; truth value and matching-well set are compared exactly. Triggering: the handler protocol "
+               "property statement (month numbers with a fraction compare as the nearest month, the documented rule; exact halves are not generated); truth value and matching-well set are compared exactly. Triggering: the handler protocol "
                "pending -> eval -> add_run is driven over time grids, the harness records every run itself and checks the "
                "recorded trace against the three clauses (count, wait, start). The space of conditions and of simulations is "
                "unbounded, so the level is exploration; the run/wait state machine for small limits is enumerated completely.",
